@@ -22,6 +22,21 @@ def unhx(s):
 
 
 # ----------------------------------------------------------------------------- tools
+def spread_run(exe, lines, timeout=1500):
+    """vlib.run_lines hands each parallel process one contiguous block of lines; neighbouring requests
+    have similar cost (big members, heavy sweep contexts sit together), so deal them out round-robin
+    and put the answers back in the original order"""
+    n = len(lines)
+    if n <= vlib.NCPU:
+        return vlib.run_lines(exe, lines, timeout=timeout)
+    order = [i for r in range(vlib.NCPU) for i in range(r, n, vlib.NCPU)]
+    res = vlib.run_lines(exe, [lines[i] for i in order], timeout=timeout)
+    out = [None] * n
+    for pos, i in enumerate(order):
+        out[i] = res[pos] if pos < len(res) else "TOOL-CRASH(no answer)"
+    return out
+
+
 def private_copy(exe, prof):
     import shutil, time
     d = os.path.join(vlib.BUILD, "concat-bin")
@@ -57,11 +72,11 @@ class Tools:
         if not os.path.exists(self.model_exe):
             self.ok = False
 
-    def impl(self, lines, prof="dev"):
-        return vlib.run_lines(self.impl_exe[prof], lines)
+    def impl(self, lines, prof="dev", timeout=1500):
+        return spread_run(self.impl_exe[prof], lines, timeout)
 
-    def model(self, lines):
-        return vlib.run_lines(self.model_exe, lines)
+    def model(self, lines, timeout=1500):
+        return spread_run(self.model_exe, lines, timeout)
 
 
 # ----------------------------------------------------------------------------- bit-level member builder
